@@ -74,7 +74,7 @@ func (w *World) compilerField(role string) *types.Var {
 	if w.memo == nil {
 		w.memo = map[string]interface{}{}
 	}
-	k := "compilerField/"+role
+	k := "compilerField/" + role
 	if v, ok := w.memo[k]; ok {
 		w.memoMu.Unlock()
 		return v.(*types.Var)
@@ -164,7 +164,7 @@ func (w *World) evalMethods(node string) []*FuncInfo {
 	if w.memo == nil {
 		w.memo = map[string]interface{}{}
 	}
-	k := "evalMethods/"+node
+	k := "evalMethods/" + node
 	if v, ok := w.memo[k]; ok {
 		w.memoMu.Unlock()
 		return v.([]*FuncInfo)
